@@ -19,7 +19,7 @@ func init() {
 		Level: "exploration",
 		Rule: "all well-typed expression trees with exactly 0..k operator nodes (k=2 quick, 3 thorough with a reduced leaf alphabet) over every operator of the specification's table " +
 			"on num/string/bool/[]num/{}num operands, leaves = literals, variables and effectful calls (a user function that prints and returns its argument); each tree printed with " +
-			"minimal and with full parentheses in three contexts (tight call argument, spaced right-hand side, grouped argument); run on the real evaluator and compared " +
+			"minimal and with full parentheses in four contexts (tight call argument, spaced right-hand side, grouped argument, tight argument followed by arguments starting with - and [); run on the real evaluator and compared " +
 			"(effect trace + result class) with the reference interpreter. Non-trivial = the tree has at least one operator node.",
 		Assumptions: []string{"operand values are restricted to the leaf alphabet; IEEE-754 arithmetic itself is Go's float64 on both sides", "trees deeper than k operators are not explored"},
 		TrustedBase: []string{"reference interpreter /verif/mc/ref (validated against the documented examples)", "strconv.FormatFloat for number rendering", "math.Mod"},
@@ -121,7 +121,10 @@ func c01Tree(w *fw.Worker, e pt.Expr, t *pt.Type, b int) {
 	VarsUsed(e, used)
 	pre := Prelude(used)
 	for _, full := range []bool{false, true} {
-		for ctx := 0; ctx < 3; ctx++ {
+		for ctx := 0; ctx < 4; ctx++ {
+			if ctx == 3 && full {
+				continue
+			}
 			var body []pt.Stmt
 			switch ctx {
 			case 0: // tight argument
@@ -130,6 +133,8 @@ func c01Tree(w *fw.Worker, e pt.Expr, t *pt.Type, b int) {
 				body = []pt.Stmt{pt.InferDecl{Name: "r", X: e}, pt.Print(pt.S("r"), pt.V("r"))}
 			case 2: // grouped argument (whitespace allowed inside the parentheses)
 				body = []pt.Stmt{pt.Print(pt.S("r"), pt.Group{X: e})}
+			case 3: // tight argument followed by further arguments that start with "-" and "[": whitespace ends the argument
+				body = []pt.Stmt{pt.Print(pt.S("r"), e, pt.N(-7), pt.A(pt.N(5)))}
 			}
 			prog := &pt.Prog{Stmts: append(append([]pt.Stmt(nil), pre...), body...)}
 			src := (&pt.Printer{FullParens: full}).Program(prog)
